@@ -56,7 +56,9 @@ RULE = ("random graphs/datasets (IRIs in several namespaces incl. query/fragment
         "nasty character pool, language tags, datatypes, shorthand-able and not shorthand-able numerics, blank nodes, "
         "collections, blank-node graph names) rendered by the independent writer under 3-8 choice streams per case "
         "in N-Triples, N-Quads, Turtle, TriG, RDF/XML, JSON-LD and parsed through 5 carriers plus 0-3 further ways of calling parse() per case (operand kinds, format aliases, targets, re-use, keywords: see design.d/C05.md surface audit); rdflib's own "
-        "nt/nquads/xml/pretty-xml/trix/json-ld output checked by strict readers; non-trivial = at least one document "
+        "nt/nquads/xml/pretty-xml/trix/json-ld output checked by strict readers; round g: ntline cases (7 %: 24-40 single N-Triples / N-Quads lines "
+        "composed from pools of legal, lenient and malformed tokens, 4 small documents with every line-end kind) and every line / document of the "
+        "nt/nquads streams, of rdflib's own output and of the W3C suites go through rdflib's parser and the Lean model of that parser; non-trivial = at least one document "
         "was parsed (or one output produced) for a non-empty graph; distinct = distinct (kind, fmt, graph, streams)")
 ASSUMPTIONS = [
     "terms are compared as rdflib constructs them from (lexical form, datatype, language) with its default literal "
@@ -65,6 +67,8 @@ ASSUMPTIONS = [
     "the document base is given explicitly (publicID) so that all carriers resolve relative IRIs alike",
 ]
 TRUSTED = [
+    "harness/c05_ntp.py: the hand transcription of rdflib's N-Triples regular expressions into the Lean matchers of RV/C05/NtParser.lean is "
+    "trusted only as far as the per-line comparison on the ntline stream reaches (every class of token the pools produce)",
     "harness/c05_spell.py document-level writers (Turtle/TriG/RDF-XML/JSON-LD/N-Triples/N-Quads): trusted to emit "
     "legal text meaning the given graph; their string, PN_LOCAL and relative-IRI tokens are recomputed and read back "
     "by the verified Lean codecs on every run; N-Triples/N-Quads documents are additionally read by the Lean reader",
